@@ -727,3 +727,20 @@ def loc_through_call(caller, call_term, callee_loc):
     if a and a[0] == 'agg' and fields and fields[0] in (a[1].get('fields') or []):
         return ('term', a[2][a[1]['fields'].index(fields[0])])
     return ('term', a) if not fields else None
+
+
+def whole_buffer_takes(body):
+    """[(bb, call, ok)] for every place a BytesMut is split to be handed out: buf.split_to(buf.len()) or buf.split() take the
+    whole buffer (ok=True); a split_to with another length is a partial take (ok=False)"""
+    out = []
+    for bb, t in body.calls(name='split_to'):
+        if 'BytesMut' not in (t.get('fn') or ''):
+            continue
+        a = strip_refs(body.origin(t['args'][1]))
+        recv = body.origin(t['args'][0])
+        same = is_call(a, name='len') and show(strip_refs(a[2][0])) == show(strip_refs(recv))
+        out.append((bb, t, bool(same)))
+    for bb, t in body.calls(name='split'):
+        if 'BytesMut' in (t.get('fn') or '') and len(t['args']) == 1:
+            out.append((bb, t, True))
+    return out
